@@ -942,32 +942,40 @@ def parse(text, pos=0, fullparse=True):
 # unset, the templates - and so the generated code - are untouched.
 def _verif_instrument(template):
     import re as _re
+    original = template
 
     def after(anchor, *lines, deeper=False):
         nonlocal template
-        match = _re.search(r'^([ ]*)' + _re.escape(anchor) + r'$', template, _re.M)
+        # The anchor is the start of a line of the _run driver.
+        match = _re.search(r'^([ ]*)' + _re.escape(anchor) + r'.*$', template, _re.M)
         if match is None:
-            raise Exception(f'SOURCER_VERIF: anchor not found: {anchor!r}')
+            raise LookupError(anchor)
         indent = match.group(1) + ('    ' if deeper else '')
         addition = ''.join(f'\n{indent}{x}' for x in lines)
         template = template[:match.end()] + addition + template[match.end():]
 
-    after('stack = [(key, gtor)]',
-        '_vt = _verif_tracer()',
-        'if _vt: _vt.begin(key)')
-    after('memo[key] = result',
-        'if _vt: _vt.ret(key, result, len(stack))')
-    after('elif result in memo:',
-        '_vk = result', deeper=True)
-    after('result = memo[result]',
-        'if _vt: _vt.hit(_vk, result, len(stack))')
-    after('stack.append((result, gtor))',
-        'if _vt: _vt.push(result, len(stack))')
-    template = template.replace(
-        '\n    if result[0]:\n        return _finalize_parse_info(',
-        '\n    if _vt: _vt.end(result)\n    if result[0]:\n        return _finalize_parse_info(',
-        1,
-    )
+    try:
+        after('stack = [(key, gtor)]',
+            '_vt = _verif_tracer()',
+            'if _vt: _vt.begin(key)')
+        after('memo[key] = result',
+            'if _vt: _vt.ret(key, result, len(stack))')
+        after('elif result in memo',
+            '_vk = result', deeper=True)
+        after('result = memo[result]',
+            'if _vt: _vt.hit(_vk, result, len(stack))')
+        after('stack.append((result, gtor))',
+            'if _vt: _vt.push(result, len(stack))')
+        after('while stack:', deeper=False)
+        marker = '\n    if result[0]:\n        return _finalize_parse_info('
+        if marker not in template:
+            raise LookupError(marker)
+        template = template.replace(marker, '\n    if _vt: _vt.end(result)' + marker, 1)
+    except LookupError:
+        # The driver no longer looks the way this hook expects: leave it alone
+        # (the generated module then has no _verif_tracer).
+        return original
+
     template += (
         '\n\ndef _verif_tracer():\n'
         '    try:\n'
@@ -981,5 +989,6 @@ def _verif_instrument(template):
 import os as _os
 if _os.environ.get('SOURCER_VERIF') == '1':
     _main_template = _verif_instrument(_main_template)
-    _subgrammar_setup = _subgrammar_setup.replace(
-        '    _ctx as _super_ctx,', '    _verif_tracer,\n    _ctx as _super_ctx,')
+    if '_verif_tracer' in _main_template:
+        _subgrammar_setup = _subgrammar_setup.replace(
+            '    _ctx as _super_ctx,', '    _verif_tracer,\n    _ctx as _super_ctx,')
